@@ -23,6 +23,7 @@ type c10Outcome struct {
 	fenced    bool
 	terminal  bool
 	syncErr   bool
+	skipped   bool
 }
 
 // c10Forward runs one forward request against the current log and judges it.
@@ -39,10 +40,26 @@ func (e *c10Env) c10Forward(s c10Start, t c10Stop, st *c10State, caseSeed uint64
 				"bound": w.Bound, "bound_kind": w.BoundWhy, "empty_range_ok": w.EmptyOK, "unspecified": w.Unspecified},
 			"expected_offsets": c10Offs(expectedAll), "delivered_offsets": c10Offs(delivered), "observed": obs}
 	}
-	pair := "fwd|" + s.Class + "|" + t.Class
+	cause := e.causeForward(st, s, t, w)
+	if cause != "" && c10Seen("fwd|"+cause) >= c10CauseCap {
+		out.skipped = true
+		return
+	}
 	fail := func(kind, what string) {
-		c10Mark(pair)
 		fp := fmt.Sprintf("C10:fwd:%s:start=%s:stop=%s:log=%s", kind, s.Class, t.Class, e.shape.label())
+		if cause == "" {
+			// the segment list may have changed since the state was read
+			// (background roll of the active segment): probe again
+			if st2, err := e.state(); err == nil {
+				stc := *st
+				stc.Bases = st2.Bases
+				cause = e.causeForward(&stc, s, t, w)
+			}
+		}
+		if cause != "" {
+			c10Mark("fwd|" + cause)
+			fp = fmt.Sprintf("C10:fwd:%s:%s", cause, kind)
+		}
 		rep.Violation(fp, fmt.Sprintf("%s on %s log: %s", reqStr, e.shape.label(), what), witness(what))
 	}
 	inconc := func(what string) {
@@ -165,11 +182,7 @@ func (e *c10Env) c10Forward(s c10Start, t c10Stop, st *c10State, caseSeed uint64
 				return
 			case "msg":
 				delivered = append(delivered, ev.Msg)
-				kind := "extra"
-				if !st.has(w.Bound) && w.Bound <= st.Newest {
-					kind = "overshoot-stop-not-retained"
-				}
-				fail(kind, fmt.Sprintf("delivered offset %d beyond the %s %d (offset %d retained: %v); the range had ended and ResourceExhausted was due", ev.Msg.Off, w.BoundWhy, w.Bound, w.Bound, st.has(w.Bound)))
+				fail("extra", fmt.Sprintf("delivered offset %d beyond the %s %d (offset %d retained: %v); the range had ended and ResourceExhausted was due", ev.Msg.Off, w.BoundWhy, w.Bound, w.Bound, st.has(w.Bound)))
 				return
 			default:
 				if canFence() {
@@ -257,24 +270,24 @@ func c10GenShape(rng *kit.RNG, i int, reverse bool) c10Shape {
 		sh.ViaAPI = i%4 == 1
 		sh.EmptyActive = i%20 == 5 && !reverse
 		if sh.EmptyActive {
-			sh.SegBytes, sh.ViaAPI = []int64{1, 160}[rng.Intn(2)], false
+			sh.SegBytes, sh.ViaAPI = 1, false
 		}
 	case "compacted":
-		sh.N = rng.Range(8, 40)
-		sh.Keys = rng.Range(2, 6)
+		sh.N = rng.Range(12, 50)
+		sh.Keys = rng.Range(2, 8)
 		sh.SegBytes = []int64{1, 160, 300, 420}[rng.Intn(4)]
 		sh.HWInside = rng.Chance(1, 4)
 		sh.ViaAPI = !sh.HWInside && rng.Chance(1, 4)
 	case "trimmed":
 		sh.N = rng.Range(8, 40)
 		sh.SegBytes = []int64{1, 160, 300}[rng.Intn(3)]
-		sh.RetMsgs = int64(rng.Range(1, sh.N/2+1))
+		sh.RetMsgs = int64(rng.Range(2, sh.N-2))
 		sh.ViaAPI = rng.Chance(1, 4)
 	case "both":
-		sh.N = rng.Range(12, 40)
-		sh.Keys = rng.Range(2, 6)
+		sh.N = rng.Range(16, 50)
+		sh.Keys = rng.Range(2, 8)
 		sh.SegBytes = []int64{1, 160, 300}[rng.Intn(3)]
-		sh.RetMsgs = int64(rng.Range(3, sh.N/2+1))
+		sh.RetMsgs = int64(rng.Range(6, sh.N/2+2))
 	}
 	if !sh.HWInside && !sh.EmptyActive && rng.Chance(2, 5) {
 		sh.Tail = rng.Range(1, 4)
@@ -364,9 +377,6 @@ func (e *c10Env) runForwardCases(rng *kit.RNG, nCases int) {
 		if done >= nCases {
 			break
 		}
-		if c10Seen("fwd|"+pr.s+"|"+pr.t) >= 2 {
-			continue
-		}
 		st, err := e.state()
 		if err != nil {
 			rep.Inconc("log state unreadable: " + err.Error())
@@ -387,6 +397,10 @@ func (e *c10Env) runForwardCases(rng *kit.RNG, nCases int) {
 		done++
 		caseSeed := rng.Uint64()
 		out := e.c10Forward(s, tt, st, caseSeed)
+		if out.skipped {
+			rep.Count("requests_skipped_cause_already_recorded", 1)
+			continue
+		}
 		e.quiesce()
 		if out.fenced {
 			e.reshape()
@@ -403,15 +417,110 @@ func (e *c10Env) runForwardCases(rng *kit.RNG, nCases int) {
 		if out.syncErr {
 			rep.Count("subscribe_call_errors", 1)
 		}
-		special := len(st.gaps(st.Oldest, st.Newest)) > 0 || st.Oldest > 0 || st.HW < st.Newest || st.Readonly || len(st.Bases) > 1
+		special := len(st.gaps(st.Oldest, st.Newest)) > 0 || st.Oldest > 0 || st.HW < st.Newest || st.Readonly || len(st.Bases) > 1 || st.emptyActive()
 		if out.ok && special && (out.delivered > 0 || out.terminal || out.fenced) {
 			rep.Nontrivial("fwd|" + e.shape.label() + "|" + pr.s + "|" + pr.t)
 		}
 		rep.Count("start_"+pr.s, 1)
 		rep.Count("stop_"+pr.t, 1)
 	}
+	e.quiesce()
+	e.c10ReadonlyTransition(rng)
+}
+
+// c10ReadonlyTransition: a subscription that is waiting at the end of the log
+// when the stream is set read-only through the API must then end with
+// ResourceExhausted (after the not yet committed tail, once that commits).
+func (e *c10Env) c10ReadonlyTransition(rng *kit.RNG) {
+	rep := e.rep
+	st, err := e.state()
+	if err != nil || st.Readonly {
+		return
+	}
+	classes := []string{"earliest", "latest", "new-only", "off-existing", "off-in-gap", "off-hw", "off-beyond", "ts-at", "ts-between-gap", "ts-after-all", "off-below-oldest"}
+	var s c10Start
+	ok := false
+	for try := 0; try < 8 && !ok; try++ {
+		s, ok = st.resolveStart(classes[rng.Intn(len(classes))], rng)
+	}
+	if !ok {
+		return
+	}
+	t := c10Stop{Class: "readonly-while-subscribed", Pos: client.StopPosition_STOP_ON_CANCEL}
+	w := st.wantForward(s, t)
+	if e.causeForward(st, s, t, w) != "" {
+		return
+	}
+	reqStr := c10ReqString(s, t, false)
+	var delivered []c10Msg
+	queue := w.inRange(st.committed())
+	expected := append([]c10Msg(nil), queue...)
+	fail := func(kind, what string) {
+		rep.Violation(fmt.Sprintf("C10:fwd:readonly-while-subscribed:%s:start=%s:log=%s", kind, s.Class, e.shape.label()),
+			fmt.Sprintf("%s on %s log, stream set read-only while subscribed: %s", reqStr, e.shape.label(), what),
+			map[string]any{"seed": kit.Seed(), "shape_seed": e.seed, "shape": e.shape, "log": st.summary(), "request": reqStr,
+				"expected_offsets": c10Offs(expected), "delivered_offsets": c10Offs(delivered), "observed": what})
+	}
+	ctx, cancel := context.WithCancel(context.Background())
+	defer cancel()
+	sub, err := e.srv.api.SubscribeInternal(ctx, c10Request(e.stream, s, t, false))
+	if err != nil {
+		fail("subscribe-error", fmt.Sprintf("subscribe call failed with %v", err))
+		return
+	}
+	defer sub.Close()
+	rep.Eval()
+	rep.Count("readonly_while_subscribed_cases", 1)
+	phase := 0 // 0: committed part, 1: read-only set (+ tail committed)
+	for {
+		if len(queue) == 0 && phase == 0 {
+			phase = 1
+			actx, acancel := context.WithTimeout(context.Background(), c10Watchdog)
+			_, err := e.srv.api.SetStreamReadonly(actx, &client.SetStreamReadonlyRequest{Name: e.stream, Readonly: true})
+			acancel()
+			if err != nil {
+				rep.Inconc("SetStreamReadonly failed: " + err.Error())
+				return
+			}
+			if !vfWait(c10Watchdog, func() bool { return e.p.log.IsReadonly() }) {
+				rep.Inconc("partition never became read-only")
+				return
+			}
+			e.p.log.SetHighWatermark(e.p.log.NewestOffset())
+			for _, m := range st.All {
+				if m.Off > st.HW && m.Off >= w.SEff {
+					queue = append(queue, m)
+					expected = append(expected, m)
+				}
+			}
+		}
+		ev := c10Next(sub, c10Watchdog)
+		switch ev.Kind {
+		case "timeout":
+			rep.Inconc(fmt.Sprintf("forward %s on %s log, read-only while subscribed: watchdog in phase %d (next expected: %s)", reqStr, e.shape.label(), phase, c10Offs(queue)))
+			return
+		case "status":
+			switch {
+			case len(queue) > 0:
+				fail("ended-early", fmt.Sprintf("ended with %v %q before delivering offset %d", ev.St.Code(), ev.St.Message(), queue[0].Off))
+			case ev.St.Code() != codes.ResourceExhausted:
+				fail("wrong-status", fmt.Sprintf("ended with %v %q, documented is ResourceExhausted (end of read-only partition)", ev.St.Code(), ev.St.Message()))
+			default:
+				rep.Count("terminal_statuses_seen", 1)
+				rep.Nontrivial("fwd|" + e.shape.label() + "|" + s.Class + "|readonly-while-subscribed")
+			}
+			return
+		}
+		delivered = append(delivered, ev.Msg)
+		if len(queue) == 0 || !c10Same(queue[0], ev.Msg) {
+			fail("unexpected-delivery", fmt.Sprintf("delivered %v; still expected: %s", ev.Msg, c10Offs(queue)))
+			return
+		}
+		queue = queue[1:]
+		rep.Count("messages_delivered_and_compared", 1)
+	}
 }
 
 func TestVerifC10Forward(t *testing.T) {
-	c10Run(t, "forward", false, kit.Scale(30, 240), kit.Scale(90, 200))
+	c10Run(t, "forward", false, kit.Scale(60, 320), kit.Scale(110, 200))
 }
